@@ -156,7 +156,7 @@ C05 = Prop(
          "double, lambdas and std::function callables, 0-4 items) in the one-expression form and the named-stream forms "
          "(quick: a third of the named forms); every filter type x 64 threshold triples x 6 severities (quick: a quarter); "
          "seeded random histories of up to 8 statements with threshold changes in between. Compared: the exact event "
-         "trace (callable calls, format calls, sink calls per member). Item kind T: a callable that sets threshold 0 when it is called (the statement it belongs to is unaffected, later ones see it). Two members of the three-member sequence take the "
+         "trace (callable calls, format calls, sink calls per member). Item kind a: a partly filled 24-byte character buffer (const and non-const array). Item kind T: a callable that sets threshold 0 when it is called (the statement it belongs to is unaffected, later ones see it). Two members of the three-member sequence take the "
          "formatted record by value and consume it. Non-trivial: at least one statement. " \
                 "Item kind x: a value whose inserter puts the statement's string stream into the failed state (nothing is appended afterwards, callables are still evaluated); overlapping statements (a statement evaluated inside an item of another one).",
     harness=HARNESS, search=lambda dis, rng: rng.shuffle(gen_log("C05", "thorough", rng))[:40000],
